@@ -10,6 +10,20 @@ COMMON_NOTE = ("Trusted: Coq 8.16.1 kernel + vm_compute; the hand-written execut
 
 # id -> (claimed?, full/partial text, technique, level_note extra, design_ref)
 PROPS = {
+    "C01": (True, "Full. For every position with size 3..8, size^2 squares and only tops walls/capstones, and EVERY move value (any "
+            "integer coordinates, any type, any integer list as drops): move accepts exactly when the rulebook relation legal_step "
+            "(declarative, pointwise in coordinates, written independently of the algorithm) allows it, with exactly the prescribed "
+            "successor; legal_step is functional; the model has no third outcome and the correspondence maps any exception other than "
+            "IllegalMove to a constructor that never matches.",
+            "Coq theorem (loop invariant of the slide generalised over the carry, soundness + completeness against a declarative rulebook relation) + regenerated constants + differential correspondence in Coq",
+            "CPython list/slice semantics as used by game.py (validated by the correspondence incl. an ill-formed move stream).", "6/C01"),
+    "C02": (True, "Full. For every position with size >= 1 and size^2 squares: the flood fill reaches the opposite edge exactly when a "
+            "path of on-board, orthogonally linked squares whose TOP piece is a flat or capstone of the colour joins the edges "
+            "(road as existence of a path; generic closure theorem with early exit); has_road and winner equal the outcome relation "
+            "of the property text (both roads -> player who just moved; flats when full or a reserve is empty; draw; not over); "
+            "has_road agrees with winner.",
+            "Coq theorem (reachability closure <-> existence of a path, loop-erasure counting argument) + regenerated constants + differential correspondence in Coq",
+            "Reachability modelled as neighbour closure, not the Python work-list (results compared, not algorithms).", "6/C02"),
     "C03": (True, "Full. For every position with size^2 squares: every canonical move the rules accept is in all_moves (exactly once: "
             "NoDup and count_occ = 1), everything generated is an entry of the id table of the size (all sizes; with ids below the head "
             "width for 3-6), the table entries the rules accept are exactly the canonical legal moves, so filtering the table (what "
@@ -17,6 +31,13 @@ PROPS = {
             "relation in C01. The generator is a pseudo-legal superset by design; the property asks for completeness and uniqueness.",
             "Coq theorem (list membership/NoDup over flat_map) + regenerated constants + differential correspondence in Coq (lists compared in order) + independent move-universe oracle",
             "The harness's independent enumerator of the move universe and ill-formed stream used by the search oracle.", "6/C03"),
+    "C04": (True, "Full. Invariant (conservation of stones and capstones per colour, non-negative reserves, only tops are walls or "
+            "capstones, ply >= 0 and side to move by parity, board empty at ply 0 / one black flat at ply 1 / one flat of each colour "
+            "at ply 2) holds initially for every configuration (size 3..8, any non-negative counts), is preserved by every accepted "
+            "move with ply + 1, hence along every finite sequence of accepted moves (induction over the move list); reachable positions "
+            "are well-formed (C01's hypothesis).",
+            "Coq theorem (invariant by induction over move sequences) + differential correspondence in Coq + closure of tiny configurations",
+            "3x3 closures are explored to a fixed point only for the smallest piece counts; larger ones to a stated cap.", "6/C04"),
     "C05": (True, "Full for the listed functions under the stated CPython semantics of the IR constructs. A heap-effect IR of "
             "Position.move (_move_place/_move_slide inlined), from_squares, from_config, parse_tps (parse_row inlined) and "
             "transform_position is REGENERATED from the source on every run by a fail-closed ast translator; theorem: a program all "
@@ -36,6 +57,45 @@ PROPS = {
             "live vocabulary.",
             "Coq theorem (induction over the board with decode's current-square accumulator) + regenerated vocabulary + differential correspondence in Coq",
             "torch tensor <-> list conversions in the harness; Python negative indexing modelled faithfully outside the domain.", "6/C06"),
+    "C08": (True, "Full for the bookkeeping. A node-tree model with exact rationals, one simulation = one structural recursion over the "
+            "descent path, the evaluator answers, root noise and sampler choices as input streams: the invariant Good (visits = 1 + "
+            "children's, value = own evaluation - children's values, terminal nodes visits*outcome with outcome by winner, children "
+            "one-to-one in table order with the accepted table moves whose prior reaches the cutoff, child position = move parent m, "
+            "child priors = raw priors renormalised) holds initially, is preserved by every simulation for every evaluator and every "
+            "valid choice stream, k simulations add exactly k root visits (fresh tree: exactly n; re-used: max), |value| <= visits "
+            "for evaluations in [-1,1], the searched position is untouched. Wall-clock time_limit is not modelled (runs use 0).",
+            "Coq theorem (tree invariant preserved by simulate, induction over the descent path) + trace-based differential correspondence in Coq",
+            "Recording evaluator / recorded torch.multinomial choices / fake Dirichlet in the harness; float32 priors compared within 1e-5 relative inside Coq, values dyadic hence exact.", "6/C08"),
+    "C09": (True, "Partial. Exact-arithmetic theorems: at every expanded node of a Good tree q_i is in [-1,1], child priors are positive "
+            "and sum to 1 (given the evaluator gives a legal move the cutoff), lambda^2 > 0, before any visit the policy is the prior, "
+            "after a visit it is solve(policy_inputs); every child move is accepted by the rules in the parent position, so the "
+            "returned move is legal. The inputs (prior, q, lambda) the implementation hands to the solver at every call are compared "
+            "with the model's inside Coq; 'to the accuracy the solver guarantees' rests on C10, whose float behaviour is not proved.",
+            "Coq theorem over the tree invariant + correspondence of every solver call's inputs in Coq + rational oracle of the returned distribution",
+            "Solver output accuracy is C10's; lambda compared through its square (no sqrt in Q).", "6/C09"),
+    "C10": (True, "Partial. The bisection is written once, generic in the arithmetic; proved in exact rationals (no Reals axioms): f "
+            "strictly decreasing above max q, the initial bracket contains the root, bisection keeps it bracketed with width "
+            "lambda/2^k, the Python exit rule returns within 32 iterations (the AssertionError is unreachable), the output is "
+            "lambda*pi/(alpha-q) for one alpha > max q (finite, positive), the sum is within 1e-3 of one or the root lies within 1e-6 "
+            "of alpha; for the native exit rule the same conditionally on returning. The float32 behaviour (exit sum==last_sum, "
+            "overflow, cancellation) is decided by a bit-exact SpecFloat binary32 mirror of tak.cpp compared bit for bit with the "
+            "native solver, and by a rational oracle sweep over the property's regime - not by a theorem.",
+            "Coq theorem in exact rational arithmetic + bit-exact SpecFloat mirror compared with the native solver inside Coq + source-shape tie + oracle sweep",
+            "g++ build of the real tak.cpp; torch float32 elementwise ops mirrored by SpecFloat (24,128); source fragments scraped by regex (a renamed variable breaks the tie).", "6/C10"),
+    "C13": (True, "Full. format/parse modelled statement by statement over code points (str.split/join proved characterised): "
+            "parse(format p) = p for every well-formed position with standard reserves; format(parse s) = s for canonical text; the "
+            "accepted text means what the TPS standard says pointwise (square (x,y) = the x-th expanded cell of rank size-1-y read "
+            "bottom to top with the mark on the top piece; ply from move number and player) - which excludes mirrored or transposed "
+            "readings; every must-refuse class is rejected; the model never crashes or answers Unspecified.",
+            "Coq theorem (parser = declarative cell/row shape, decimal printer round trip) + differential correspondence in Coq incl. grammar-directed mutations and an independent writer",
+            "Python str methods isascii/isdigit/split and int() modelled on code points (validated by the correspondence).", "6/C13"),
+    "C14": (True, "Full on the specified fragment. parse(format m) = m for EVERY move of sizes 3..8 (proved generally, and compared "
+            "exhaustively), stability, parse s = m iff the PTN grammar relation denotes (s, m), the Unspecified class is exactly the "
+            "lenient spellings, must-refuse classes rejected, and for any text rendered from tags and moves with comments, move "
+            "numbers, annotations, result markers and arbitrary white space parse_game returns the tags and exactly the moves in "
+            "order. Regexes and glyph maps are regenerated constants.",
+            "Coq theorem (recursive-descent matcher = grammar relation; renderer/parse_game round trip) + regenerated regexes + differential correspondence in Coq (exhaustive over moves and short strings)",
+            "Python re semantics of the six regexes modelled by hand (\\s,\\d exact tables checked against re on every run; \\w on ASCII only).", "6/C14"),
     "C15": (True, "Full. The eight regenerated matrices are the dihedral group of the square (distinct maps, closed under composition and "
             "inverse, signed permutation linear parts, bijections of the board preserving adjacency, for every size); for every "
             "symmetry, every position with size^2 squares and EVERY move (legal, illegal, off-board, malformed): transform then move "
@@ -65,6 +125,15 @@ PROPS = {
             "exhibit: real thread scheduling, the gRPC transport, cancellation races, equal timer deadlines.",
             "Coq theorem (invariant over all event sequences of a state machine) + schedule-level differential correspondence on a virtual-time asyncio loop",
             "Virtual-time event loop and inline executor of the harness; shims for grpc/protobuf; gather timeout 1 ms is a literal in the model (tie behavioural only).", "6/C17"),
+    "C18": (True, "Partial. A protocol model (parent, bounded cmd/games queues, workers Starting/Idle/Reading/Playing/Done/Exited, "
+            "fault events Raise/Kill, torn queue messages, stop with join timeout) over ALL event sequences: count invariant, a normal "
+            "return has exactly N distinct transcripts of this request's ids, queues empty and no worker holding an id between "
+            "requests, a fault leaves a non-zero exit code, once a worker has failed the parent returns N or raises within "
+            "outstanding+1 completions of its timed get (under the explicit hypothesis that no worker dies mid-write; without it the "
+            "statement is refuted - the known finding torn-put-hang), stop terminates all workers. OS process and pipe behaviour is "
+            "runtime; real spawn processes with fault injection are compared with the model's prediction.",
+            "Coq theorem (invariants and bounded progress over all event sequences of a protocol model) + fault-injection correspondence with real processes",
+            "multiprocessing.Queue is FIFO and get(timeout) returns unless a message is torn; scenario harness with a watchdog (hang = observed outcome).", "6/C18"),
     "C19": (True, "Partial. The file-system operation sequence of SavingHook.save_snapshot and the read set of load_state / "
             "load_or_init_model are REGENERATED from the source on every run (fail-closed ast translator) and tied to the model; "
             "over a file-system model with writes split into truncate+complete: for EVERY history of saves (periodic, on request, "
@@ -75,6 +144,14 @@ PROPS = {
             "(serve-precision-snapshot) is reported by the check.",
             "Coq theorem (invariant over histories and crash prefixes of a file-system model) + FS-op IR regenerated from the source (translator tie) + crash-injection correspondence",
             "Translator harness/save_ir.py; patched os/shutil/open/torch.save fault injector; torch.save/load and yaml round-trip their payloads (checked bit-exact); os.rename/replace/symlink atomic at process-crash granularity.", "6/C19"),
+    "C20": (True, "Full for the logic. chunks/epoch/truncation/generator state machine/replay-buffer merge modelled on lists with the "
+            "generator as a Section variable assumed to return a permutation: every epoch yields each stored row exactly once in "
+            "batches of the configured size with only the last shorter, all fields permuted by the same permutation, merged buffers "
+            "are padded with zeros under a false mask in buffer order, equal seeds give equal streams, fast-forward n = consume n, "
+            "a pickled and restored dataset restarts the stream. That torch.randperm permutes and is a function of the generator "
+            "state is assumed and checked on every observed call.",
+            "Coq theorem (Permutation / chunking lemmas, induction on epochs) + differential correspondence in Coq with the observed permutations as the oracle",
+            "torch.randperm / torch.Generator behaviour (observed, validated per call); torch indexing as list indexing.", "6/C20"),
     "C07": (True, "Full. Theorems for every size n: the id table lists exactly the well-formed moves (table_spec), without "
             "repetition, encode/decode are mutual inverses between [0,|table n|) and the move universe; width bound proved for "
             "sizes 3-6 by computation. Tie is exhaustive: every id and move of sizes 0-6 compared with the model inside Coq.",
